@@ -620,6 +620,33 @@ Definition surface_ok_b (restyle : cell -> cell) (fill : Z) (lines : list (list 
         | _, _ => false
         end) (map Z.of_nat (seq 0 (Z.to_nat W)))) (map Z.of_nat (seq 0 (Z.to_nat H))).
 
+(* the unguarded clause "the widget draws exactly the emitted lines": in addition, every character
+   of a shown line that starts inside the surface is found in the cell at its column *)
+Fixpoint shown_b (restyle : cell -> cell) (W : Z) (buf : list cell) (i : Z) (chars : list cell) (col : Z) : bool :=
+  match chars with
+  | [] => true
+  | ch :: t =>
+      if W <=? col then true
+      else match zget buf (i * W + col) with
+           | Some x => cell_eqb x (restyle ch)
+           | None => false
+           end && shown_b restyle W buf i t (col + c_width ch)
+  end.
+
+Definition surface_exact_b (restyle : cell -> cell) (fill : Z) (lines : list (list cell)) (MaxW MaxH : Z)
+           (obs : Z * Z * list cell) : bool :=
+  surface_ok_b restyle fill lines MaxW MaxH obs &&
+  let '(W, H, buf) := obs in
+  forallb (fun i => match zget lines i with
+                    | Some l => shown_b restyle W buf i l 0
+                    | None => false
+                    end) (map Z.of_nat (seq 0 (Z.to_nat H))).
+
+(* guard of the recorded finding zero-width-overdraw: a drawn line contains a zero-width
+   character (it shares its column with the next character, which overwrites it) *)
+Definition has_zero_width (lines : list (list cell)) : bool :=
+  existsb (existsb (fun c => c_width c <=? 0)) lines.
+
 (* draw case: (is_rich, style, MaxW, MaxH, lines as drawn characters, observed (W, H, buffer)) *)
 Definition draw_case := (bool * Z * Z * Z * list (list cell) * (Z * Z * list cell))%type.
 Definition draw_restyle (rich : bool) (style : Z) : cell -> cell :=
@@ -632,6 +659,8 @@ Definition draw_case_mismatch (k : draw_case) : bool :=
   end.
 Definition draw_case_violation (k : draw_case) : bool :=
   let '(rich, style, MaxW, MaxH, lines, obs) := k in
-  negb (surface_ok_b (draw_restyle rich style) (if rich then 0 else style) lines MaxW MaxH obs).
+  negb (surface_exact_b (draw_restyle rich style) (if rich then 0 else style) lines MaxW MaxH obs).
+Definition c16_draw_known (cases : list draw_case) : list Z :=
+  bad_indices (fun k : draw_case => let '(_, _, _, _, lines, _) := k in has_zero_width lines) cases.
 Definition c16_draw_mismatches (cases : list draw_case) : list Z := bad_indices draw_case_mismatch cases.
 Definition c16_draw_violations (cases : list draw_case) : list Z := bad_indices draw_case_violation cases.
